@@ -79,7 +79,7 @@ func genPadLen(r *vu.Rng) int {
 	}
 }
 
-func gen(r *vu.Rng, i int) []string {
+func genOp(r *vu.Rng) []string {
 	switch r.Intn(16) {
 	case 0, 1:
 		pad := "nil"
@@ -178,6 +178,47 @@ func gen(r *vu.Rng, i int) []string {
 	}
 }
 
+// genLateReject: a call the method rejects AFTER startWrite has put a partial frame into the
+// Framer's write buffer (WriteHeaders: invalid StreamDep, WritePushPromise: invalid PromiseID),
+// or in endWrite (ErrFrameTooLarge, rarely: 16 MiB).
+func genLateReject(r *vu.Rng) string {
+	sid := uint32(1 + r.Intn(0x7ffffffe))
+	padLen := 0
+	if r.Bool() {
+		padLen = genPadLen(r)
+	}
+	switch k := r.Intn(40); {
+	case k == 0 && r.Chance(1, 10):
+		return fmt.Sprintf("raw %d %d %d z%d", r.Intn(256), r.Intn(256), sid, (1<<24)+r.Intn(3))
+	case k < 20:
+		dep := uint32(1<<31) + uint32(r.Intn(1<<20))*uint32(r.Intn(2048))
+		return fmt.Sprintf("headers %d %s %s %d %d %s %d %s", sid, b01(r.Bool()), b01(r.Bool()), padLen, dep, b01(r.Bool()), r.Intn(256), genPayloadTok(r))
+	default:
+		pid := uint32(0)
+		if r.Bool() {
+			pid = uint32(1<<31) + uint32(r.Intn(1<<30))
+		}
+		return fmt.Sprintf("pushpromise %d %d %s %d %s", sid, pid, b01(r.Bool()), padLen, genPayloadTok(r))
+	}
+}
+
+// gen: a case is a sequence of Write calls on one Framer.
+func gen(r *vu.Rng, i int) []string {
+	ops := []string{"reset"}
+	n := 1
+	if r.Chance(11, 20) {
+		n = 2 + r.Intn(3)
+	}
+	for j := 0; j < n; j++ {
+		if n > 1 && j < n-1 && r.Chance(1, 2) {
+			ops = append(ops, genLateReject(r))
+		} else {
+			ops = append(ops, genOp(r)...)
+		}
+	}
+	return ops
+}
+
 type args struct {
 	t  []string
 	ok bool
@@ -214,9 +255,29 @@ func (a *args) bytes(i int) []byte {
 var arity = map[string]int{"data": 5, "headers": 9, "priority": 5, "rst": 3, "settings": 2, "settingsack": 1,
 	"ping": 3, "goaway": 4, "winupdate": 3, "continuation": 4, "pushpromise": 6, "prioupdate": 3, "raw": 5}
 
+// wstate is the ONE writing Framer of a case (`reset` makes a new one): the ops of a case are a
+// sequence of Write calls on it, so that whatever a rejected call leaves in the Framer's write
+// buffer would show up in the bytes of the next accepted call.
+type wstate struct {
+	buf bytes.Buffer
+	fr  *http2.Framer
+}
+
+func newWstate() *wstate {
+	st := &wstate{}
+	st.fr = http2.NewFramer(&st.buf, nil)
+	return st
+}
+
 func exec(ops []string, o *vu.Out) {
+	st := newWstate()
 	for _, op := range ops {
-		o.Op(op, vu.Catch(func() string { return execOne(op, o) }))
+		if op == "reset" {
+			st = newWstate()
+			o.Op(op, "ok")
+			continue
+		}
+		o.Op(op, vu.Catch(func() string { return execOne(op, st, o) }))
 	}
 }
 
@@ -226,21 +287,24 @@ type expect struct {
 	flags  http2.Flags
 	sid    uint32
 	fields string // canonical field part of showFrame (after the header)
+	plen   int    // payload length the arguments imply
 	skip   bool   // outside the quantified domain (32-bit stream ids, raw frames of known types)
 	sig    string
 }
 
-func execOne(op string, o *vu.Out) string {
+func execOne(op string, st *wstate, o *vu.Out) string {
 	t := strings.Fields(op)
 	if len(t) == 0 || arity[t[0]] != len(t) {
 		return "bad-op"
 	}
 	a := &args{t: t, ok: true}
-	var buf bytes.Buffer
-	fr := http2.NewFramer(&buf, &buf)
+	buf := &st.buf
+	buf.Reset()
+	fr := st.fr
 	var werr error
 	var ex expect
 	var pre bool
+	var preLen int
 	fl := func(b bool, f http2.Flags) http2.Flags {
 		if b {
 			return f
@@ -263,7 +327,10 @@ func execOne(op string, o *vu.Out) string {
 		}
 		werr = fr.WriteDataPadded(sid, es, data, pad)
 		ex = expect{typ: http2.FrameData, flags: fl(es, http2.FlagDataEndStream) | fl(pad != nil, http2.FlagDataPadded),
-			sid: sid, fields: dig(data)}
+			sid: sid, fields: dig(data), plen: len(data)}
+		if pad != nil {
+			ex.plen += 1 + len(pad)
+		}
 	case "headers":
 		p := http2.HeadersFrameParam{StreamID: a.u32(1), EndStream: a.bool(2), EndHeaders: a.bool(3), PadLength: a.u8(4),
 			Priority: http2.PriorityParam{StreamDep: a.u32(5), Exclusive: a.bool(6), Weight: a.u8(7)}, BlockFragment: a.bytes(8)}
@@ -274,7 +341,13 @@ func execOne(op string, o *vu.Out) string {
 		ex = expect{typ: http2.FrameHeaders, sid: p.StreamID,
 			flags: fl(p.EndStream, http2.FlagHeadersEndStream) | fl(p.EndHeaders, http2.FlagHeadersEndHeaders) |
 				fl(p.PadLength != 0, http2.FlagHeadersPadded) | fl(!p.Priority.IsZero(), http2.FlagHeadersPriority),
-			fields: showPrio(p.Priority) + " " + dig(p.BlockFragment)}
+			fields: showPrio(p.Priority) + " " + dig(p.BlockFragment), plen: len(p.BlockFragment) + int(p.PadLength)}
+		if p.PadLength != 0 {
+			ex.plen++
+		}
+		if !p.Priority.IsZero() {
+			ex.plen += 5
+		}
 	case "priority":
 		sid := a.u32(1)
 		p := http2.PriorityParam{StreamDep: a.u32(2), Exclusive: a.bool(3), Weight: a.u8(4)}
@@ -282,14 +355,14 @@ func execOne(op string, o *vu.Out) string {
 			return "bad-op"
 		}
 		werr = fr.WritePriority(sid, p)
-		ex = expect{typ: http2.FramePriority, sid: sid, fields: showPrio(p)}
+		ex = expect{typ: http2.FramePriority, sid: sid, fields: showPrio(p), plen: 5}
 	case "rst":
 		sid, code := a.u32(1), a.u32(2)
 		if !a.ok {
 			return "bad-op"
 		}
 		werr = fr.WriteRSTStream(sid, http2.ErrCode(code))
-		ex = expect{typ: http2.FrameRSTStream, sid: sid, fields: fmt.Sprint(code)}
+		ex = expect{typ: http2.FrameRSTStream, sid: sid, fields: fmt.Sprint(code), plen: 4}
 	case "settings":
 		var ss []http2.Setting
 		iwsBad := false
@@ -317,7 +390,7 @@ func execOne(op string, o *vu.Out) string {
 		for _, s := range ss {
 			canon = append(canon, fmt.Sprintf("%d:%d", uint16(s.ID), s.Val))
 		}
-		ex = expect{typ: http2.FrameSettings, fields: "-"}
+		ex = expect{typ: http2.FrameSettings, fields: "-", plen: 6 * len(ss)}
 		if len(canon) > 0 {
 			ex.fields = strings.Join(canon, ",")
 		}
@@ -337,21 +410,21 @@ func execOne(op string, o *vu.Out) string {
 		var d8 [8]byte
 		copy(d8[:], d)
 		werr = fr.WritePing(ack, d8)
-		ex = expect{typ: http2.FramePing, flags: fl(ack, http2.FlagPingAck), fields: dig(d)}
+		ex = expect{typ: http2.FramePing, flags: fl(ack, http2.FlagPingAck), fields: dig(d), plen: 8}
 	case "goaway":
 		m, c, d := a.u32(1), a.u32(2), a.bytes(3)
 		if !a.ok {
 			return "bad-op"
 		}
 		werr = fr.WriteGoAway(m, http2.ErrCode(c), d)
-		ex = expect{typ: http2.FrameGoAway, fields: fmt.Sprintf("%d %d %s", m, c, dig(d)), skip: m >= 1<<31}
+		ex = expect{typ: http2.FrameGoAway, fields: fmt.Sprintf("%d %d %s", m, c, dig(d)), skip: m >= 1<<31, plen: 8 + len(d)}
 	case "winupdate":
 		sid, incr := a.u32(1), a.u32(2)
 		if !a.ok {
 			return "bad-op"
 		}
 		werr = fr.WriteWindowUpdate(sid, incr)
-		ex = expect{typ: http2.FrameWindowUpdate, sid: sid, fields: fmt.Sprint(incr), skip: sid >= 1<<31}
+		ex = expect{typ: http2.FrameWindowUpdate, sid: sid, fields: fmt.Sprint(incr), skip: sid >= 1<<31, plen: 4}
 	case "continuation":
 		sid, eh, frag := a.u32(1), a.bool(2), a.bytes(3)
 		if !a.ok {
@@ -361,8 +434,9 @@ func execOne(op string, o *vu.Out) string {
 		if fr.WriteHeaders(http2.HeadersFrameParam{StreamID: sid}) == nil {
 			pre = true
 		}
+		preLen = buf.Len()
 		werr = fr.WriteContinuation(sid, eh, frag)
-		ex = expect{typ: http2.FrameContinuation, sid: sid, flags: fl(eh, http2.FlagContinuationEndHeaders), fields: dig(frag)}
+		ex = expect{typ: http2.FrameContinuation, sid: sid, flags: fl(eh, http2.FlagContinuationEndHeaders), fields: dig(frag), plen: len(frag)}
 	case "pushpromise":
 		p := http2.PushPromiseParam{StreamID: a.u32(1), PromiseID: a.u32(2), EndHeaders: a.bool(3), PadLength: a.u8(4), BlockFragment: a.bytes(5)}
 		if !a.ok {
@@ -371,14 +445,17 @@ func execOne(op string, o *vu.Out) string {
 		werr = fr.WritePushPromise(p)
 		ex = expect{typ: http2.FramePushPromise, sid: p.StreamID,
 			flags:  fl(p.EndHeaders, http2.FlagPushPromiseEndHeaders) | fl(p.PadLength != 0, http2.FlagPushPromisePadded),
-			fields: fmt.Sprintf("%d %s", p.PromiseID, dig(p.BlockFragment))}
+			fields: fmt.Sprintf("%d %s", p.PromiseID, dig(p.BlockFragment)), plen: 4 + len(p.BlockFragment) + int(p.PadLength)}
+		if p.PadLength != 0 {
+			ex.plen++
+		}
 	case "prioupdate":
 		sid, p := a.u32(1), a.bytes(2)
 		if !a.ok {
 			return "bad-op"
 		}
 		werr = fr.WritePriorityUpdate(sid, string(p))
-		ex = expect{typ: http2.FramePriorityUpdate, fields: fmt.Sprintf("%d %s", sid, dig(p))}
+		ex = expect{typ: http2.FramePriorityUpdate, fields: fmt.Sprintf("%d %s", sid, dig(p)), plen: 4 + len(p)}
 	case "raw":
 		ty, fl8, sid, p := a.u8(1), a.u8(2), a.u32(3), a.bytes(4)
 		if !a.ok {
@@ -386,7 +463,7 @@ func execOne(op string, o *vu.Out) string {
 		}
 		werr = fr.WriteRawFrame(http2.FrameType(ty), http2.Flags(fl8), sid, p)
 		known := ty <= 9 || ty == 16
-		ex = expect{typ: http2.FrameType(ty), flags: http2.Flags(fl8), sid: sid, fields: dig(p), skip: known || sid >= 1<<31}
+		ex = expect{typ: http2.FrameType(ty), flags: http2.Flags(fl8), sid: sid, fields: dig(p), skip: known || sid >= 1<<31, plen: len(p)}
 		if known {
 			o.Stat("branch:raw-known-type")
 		} else {
@@ -395,21 +472,24 @@ func execOne(op string, o *vu.Out) string {
 	}
 	if werr != nil {
 		o.Stat("branch:" + showWriteErr(werr))
-		if buf.Len() != 0 && !pre {
-			o.Fail("write-error-but-bytes", fmt.Sprintf("%s: write failed (%v) but %d bytes reached the writer", op, werr, buf.Len()))
+		if buf.Len() != preLen {
+			o.Fail("write-error-but-bytes", fmt.Sprintf("%s: write failed (%v) but %d bytes reached the writer", op, werr, buf.Len()-preLen))
 		}
 		return showWriteErr(werr)
 	}
 	all := append([]byte{}, buf.Bytes()...)
-	var preLen int
+	rd0 := bytes.NewReader(all)
+	rfr := http2.NewFramer(nil, rd0) // a fresh reading Framer
 	if pre {
-		preLen = 9
-		if f, err := fr.ReadFrame(); err != nil || f.Header().Type != http2.FrameHeaders {
+		if f, err := rfr.ReadFrame(); err != nil || f.Header().Type != http2.FrameHeaders || preLen != 9 {
 			o.Fail("pre-headers", op+": the preparatory HEADERS frame did not read back")
 		}
 	}
+	if preLen > len(all) {
+		preLen = len(all)
+	}
 	written := all[preLen:]
-	f, err := fr.ReadFrame()
+	f, err := rfr.ReadFrame()
 	var rd string
 	if err != nil {
 		rd = showReadErr(err)
@@ -418,10 +498,13 @@ func execOne(op string, o *vu.Out) string {
 	}
 	// ---- property oracle (C06) ----
 	if !ex.skip {
-		want := fmt.Sprintf("ok %s t=%d f=%d s=%d l=%d %s", typeName(ex.typ), uint8(ex.typ), uint8(ex.flags), ex.sid, len(written)-9, ex.fields)
-		if rd != want || buf.Len() != 0 {
-			o.Fail(ex.sig, fmt.Sprintf("%s: accepted by the Write method but ReadFrame gives [%s] (%d bytes left), want [%s]", op, rd, buf.Len(), want))
+		want := fmt.Sprintf("ok %s t=%d f=%d s=%d l=%d %s", typeName(ex.typ), uint8(ex.typ), uint8(ex.flags), ex.sid, ex.plen, ex.fields)
+		if rd != want || rd0.Len() != 0 {
+			o.Fail(ex.sig, fmt.Sprintf("%s: accepted by the Write method but ReadFrame gives [%s] (%d bytes left), want [%s]", op, rd, rd0.Len(), want))
 		}
+	}
+	if len(written) != 9+ex.plen {
+		o.Fail("bytes-written", fmt.Sprintf("%s: the call handed %d bytes to the writer, the frame is %d bytes", op, len(written), 9+ex.plen))
 	}
 	if len(written) < 9 || int(written[0])<<16|int(written[1])<<8|int(written[2]) != len(written)-9 {
 		o.Fail("length-field", fmt.Sprintf("%s: 24-bit length field does not match the %d bytes written", op, len(written)))
@@ -429,7 +512,7 @@ func execOne(op string, o *vu.Out) string {
 	if len(written)-9 > 16384 {
 		o.Stat("branch:payload>16384")
 	}
-	return fmt.Sprintf("ok %s | %s rest=%d", dig(written), rd, buf.Len())
+	return fmt.Sprintf("ok %s | %s rest=%d", dig(written), rd, rd0.Len())
 }
 
 func typeName(t http2.FrameType) string {
